@@ -132,15 +132,16 @@ func (m *SubackMessage) Encode(dst []byte) (int, error) {
 		}
 	}
 
-	hl := m.header.msglen()
 	ml := m.msglen()
-
-	if len(dst) < hl+ml {
-		return 0, fmt.Errorf("suback/Encode: Insufficient buffer size. Expecting %d, got %d", hl+ml, len(dst))
-	}
 
 	if err := m.SetRemainingLength(int32(ml)); err != nil {
 		return 0, err
+	}
+
+	hl := m.header.msglen()
+
+	if len(dst) < hl+ml {
+		return 0, fmt.Errorf("suback/Encode: Insufficient buffer size. Expecting %d, got %d", hl+ml, len(dst))
 	}
 
 	total := 0
